@@ -203,21 +203,21 @@ SPECS = {
         bucket_k=16,
     ),
     "C12": Spec("C12", "B", {
-        "quick": {"buckets": 480, "soft_s": 70, "hard_s": 400, "recheck_every": 6},
+        "quick": {"buckets": 480, "soft_s": 100, "hard_s": 480, "recheck_every": 6},
         # the first 106 buckets are the enumerated freeze block (worlds_b.c12_freeze_grid: 844 single-position freeze plans)
         "thorough": {"buckets": 106 + 6400, "soft_s": 1800, "hard_s": 3000, "recheck_every": 12},
     }, bucket_k=8),
     "C11": Spec("C11", "B", {
-        "quick": {"buckets": 480, "soft_s": 70, "hard_s": 400, "recheck_every": 6},
+        "quick": {"buckets": 480, "soft_s": 100, "hard_s": 480, "recheck_every": 6},
         "thorough": {"buckets": 6400, "soft_s": 1200, "hard_s": 2400, "recheck_every": 12},
     }, bucket_k=8),
     "C09": Spec("C09", "B", {
-        "quick": {"buckets": 480, "soft_s": 70, "hard_s": 400, "recheck_every": 6},
+        "quick": {"buckets": 480, "soft_s": 100, "hard_s": 480, "recheck_every": 6},
         # the first 720 buckets are the enumerated configuration grid (worlds_b.c09_grid), the rest is seeded search
         "thorough": {"buckets": 720 + 6400, "soft_s": 1800, "hard_s": 3000, "recheck_every": 12},
     }, bucket_k=8),
     "C18": Spec("C18", "B", {
-        "quick": {"buckets": 480, "soft_s": 70, "hard_s": 400, "recheck_every": 6},
+        "quick": {"buckets": 480, "soft_s": 100, "hard_s": 480, "recheck_every": 6},
         # the first 273 buckets are the enumerated block: 91 model templates x 36 boundary symbols (worlds_b.c18_templates)
         "thorough": {"buckets": 273 + 6400, "soft_s": 1500, "hard_s": 2700, "recheck_every": 12},
     }, bucket_k=12),
